@@ -855,6 +855,40 @@ func body(c *kernel.Ctx) {
 		})
 	}
 
+	// --- validator clients' duty requests: the validator API serves them from the SAME duties cache the scheduler
+	// resolves epochs through (app.go wires one cache into both). Requests for subsets of the validators, for the
+	// current and the next epoch, at seeded instants leave the cache partially filled when the scheduler asks for
+	// all validators of the epoch - which must not change what the scheduler resolves.
+	for q, nq := 0, verifrt.Intn("cfg", 3); q < nq; q++ {
+		verifrt.Go(func() {
+			for time.Now().Before(w.faultEnd) {
+				verifrt.Sleep(w.slotDur * time.Duration(1+verifrt.Intn("w", 250)) / 100)
+				epoch := eth2p0.Epoch(w.headSlot()/w.spe + uint64(verifrt.Intn("w", 2)))
+				var idxs []eth2p0.ValidatorIndex
+				mask := 1 + verifrt.Intn("w", (1<<len(w.universe))-1)
+				for i, v := range w.universe {
+					if mask&(1<<i) != 0 {
+						idxs = append(idxs, v.vidx)
+					}
+				}
+				qctx, qcancel := context.WithTimeout(ctx, w.slotDur*time.Duration(1+verifrt.Intn("w", 30))/10)
+				var err error
+				kind := verifrt.Intn("w", 3)
+				switch kind {
+				case 0:
+					_, err = dutiesCache.AttesterDutiesCache(qctx, epoch, idxs)
+				case 1:
+					_, err = dutiesCache.ProposerDutiesCache(qctx, epoch, idxs)
+				default:
+					_, err = dutiesCache.SyncCommDutiesCache(qctx, epoch, idxs)
+				}
+				qcancel()
+				verifrt.Probe("vc-duties-request-through-shared-cache")
+				verifrt.Note("VC duties request kind %d e%d %v -> err=%v", kind, epoch, idxs, err != nil)
+			}
+		})
+	}
+
 	var runErr error
 	running := true
 	verifrt.GoNode("sched", func() {
